@@ -7,6 +7,9 @@
 //! End to end: validate_tx on every valid post-Byron fixture with witnesses
 //! added (valid / invalid, every position), duplicated, reordered, dropped,
 //! corrupted, and required signers added (re-signed fixtures).
+//! History: everything runs on the main thread in a fixed order (replayable); valid transactions are
+//! followed by transactions with another id that carry the same witness bytes, and vice versa.
+//! Length mutations of key and signature (+-1, x2, empty, valid bytes as prefix / suffix).
 //! Oracle (independent of model and validator): every vkey witness of the final
 //! bytes verifies (pallas-crypto Ed25519) over blake2b-256(body bytes); every
 //! key-locked input / collateral and every required signer has a verifying witness.
@@ -65,7 +68,35 @@ fn utxo_input(hash: &[u8], idx: u64) -> MultiEraInput<'static> {
 fn enc_input(hash: &[u8], idx: u64) -> Vec<u8> { let mut v = vec![0x82]; v.extend(enc_bytes(hash)); v.extend(enc_u64(idx)); v }
 
 #[derive(Clone, Debug)]
-struct Wit { key: usize, valid: bool }
+struct Wit { key: usize, valid: bool, shape: u8 }
+fn wit(key: usize, valid: bool) -> Wit { Wit { key, valid, shape: 0 } }
+
+/// length mutations of a (vkey, signature) pair, the valid bytes kept as prefix / suffix:
+/// 1 sig+1 byte, 2 sig twice, 3 sig-1 byte, 4 empty sig, 5 1 byte+sig, 6 sig+32 bytes,
+/// 7 key+1 byte, 8 key twice, 9 key-1 byte, 10 empty key, 11 1 byte+key
+const N_SHAPES: u8 = 12;
+fn shape_name(s: u8) -> &'static str {
+    ["as is", "signature + 1 byte", "signature twice (128 bytes)", "signature - 1 byte", "empty signature", "1 byte + signature", "signature + 32 bytes (96)",
+     "key + 1 byte", "key twice (64 bytes)", "key - 1 byte", "empty key", "1 byte + key"][s as usize]
+}
+fn reshape(w: &(Vec<u8>, Vec<u8>), shape: u8) -> (Vec<u8>, Vec<u8>) {
+    let (mut k, mut s) = w.clone();
+    match shape {
+        1 => s.push(0x00),
+        2 => { let c = s.clone(); s.extend(c); }
+        3 => { s.pop(); }
+        4 => s.clear(),
+        5 => s.insert(0, 0x00),
+        6 => s.extend(vec![0u8; 32]),
+        7 => k.push(0x00),
+        8 => { let c = k.clone(); k.extend(c); }
+        9 => { k.pop(); }
+        10 => k.clear(),
+        11 => k.insert(0, 0x00),
+        _ => {}
+    }
+    (k, s)
+}
 
 struct Ctx { oracle_only: bool, n_rule: u64, n_e2e: u64, acc: u64, rej_sig: u64, rej_other: u64, rej: std::collections::BTreeMap<String, u64> }
 
@@ -78,7 +109,7 @@ fn coq_req(r: &Option<Vec<i64>>) -> String {
 
 /// synthetic transaction for the rule level
 #[allow(clippy::too_many_arguments)]
-fn run_rule(cx: &mut Ctx, era: EraK, base_body: &RawMap, ins: &[i64], cols: &[i64], req: &Option<Vec<i64>>, wits: &Option<Vec<Wit>>, tag: &str, rng_salt: u64) {
+fn run_rule(cx: &mut Ctx, era: EraK, base_body: &RawMap, ins: &[i64], cols: &[i64], req: &Option<Vec<i64>>, wits: &Option<Vec<Wit>>, tag: &str, rng_salt: u64, reuse: Option<&Vec<(Vec<u8>, Vec<u8>)>>) -> Option<Vec<(Vec<u8>, Vec<u8>)>> {
     use pallas_validate::phase1 as p1;
     let pool = |j: usize| -> Vec<u8> { vec![b'k', j as u8] };
     // body
@@ -104,16 +135,20 @@ fn run_rule(cx: &mut Ctx, era: EraK, base_body: &RawMap, ins: &[i64], cols: &[i6
     let bb = body.encode();
     let id = tx_id(&bb);
     // witnesses
-    let wl: Option<Vec<(Vec<u8>, Vec<u8>)>> = wits.as_ref().map(|l| l.iter().map(|w| {
+    // `reuse`: the witness BYTES of an earlier call (another transaction id) are carried over unchanged
+    let wl: Option<Vec<(Vec<u8>, Vec<u8>)>> = match reuse { Some(r) => Some(r.clone()), None => wits.as_ref().map(|l| l.iter().map(|w| {
         let sig = if w.valid { sign_with(&pool(w.key), &id) } else { sign_with(&pool(w.key), b"another message") };
-        (my_pub(&pool(w.key)), sig)
-    }).collect());
+        reshape(&(my_pub(&pool(w.key)), sig), w.shape)
+    }).collect()) };
     let mut wm = RawMap(vec![]);
     if let Some(l) = &wl { set_vkey_wits(&mut wm, false, l); }
     let tx = join(&Parts { head: vec![0x84], body: bb.clone(), wits: wm.encode(), tail: vec![0xf5, 0xf6] });
     let vk: Option<Vec<alonzo::VKeyWitness>> = wl.as_ref().map(|l| l.iter().map(|(k, s)| alonzo::VKeyWitness { vkey: Bytes::from(k.clone()), signature: Bytes::from(s.clone()) }).collect());
     let all_ins: Vec<i64> = ins.iter().chain(if era == EraK::ShelleyMA { [].iter() } else { cols.iter() }).cloned().collect();
-    let model_w: Option<Vec<(i64, bool)>> = wits.as_ref().map(|l| l.iter().map(|w| (w.key as i64, w.valid)).collect());
+    // what the model is told: key id (a key of another length hashes to something else: id 50+) and
+    // validity as the harness's own Ed25519 check of the bytes against this transaction id sees it
+    let model_w: Option<Vec<(i64, bool)>> = wl.as_ref().map(|l| l.iter().zip(wits.as_ref().unwrap().iter()).map(|((k, sg), w)| (if k.len() == 32 { w.key as i64 } else { 50 + w.key as i64 }, sig_ok(k, sg, &id))).collect());
+    if reuse.is_none() { if let (Some(m), Some(l)) = (&model_w, wits) { for (a, w) in m.iter().zip(l) { assert_eq!(a.1, w.valid && w.shape == 0, "harness signing self-check"); } } }
     // rule 0: input witnesses
     let r0: Option<Out<()>> = match era {
         EraK::ShelleyMA => minicbor::decode::<alonzo::Tx>(&tx).ok().map(|m| guard(|| e(p1::shelley_ma::verif::check_witnesses(&m.transaction_body, &m.transaction_witness_set, &utxos)))),
@@ -121,12 +156,12 @@ fn run_rule(cx: &mut Ctx, era: EraK, base_body: &RawMap, ins: &[i64], cols: &[i6
         EraK::Babbage => minicbor::decode::<babbage::Tx>(&tx).ok().map(|m| guard(|| e(p1::babbage::verif::check_vkey_input_wits(&m, &vk, &utxos)))),
         _ => minicbor::decode::<conway::Tx>(&tx).ok().map(|m| guard(|| e(p1::conway::verif::check_vkey_input_wits(&m, &vk, &utxos)))),
     };
-    let Some(r0) = r0 else { emit_stat("rule_tx_not_decodable", 1); return; };
+    let Some(r0) = r0 else { emit_stat("rule_tx_not_decodable", 1); return wl; };
     let c0 = class_of(&r0);
     cx.n_rule += 1;
     // oracle on the abstract data (who is valid is known by construction and re-checked)
     let all_valid = wl.as_ref().map(|l| l.iter().all(|(k, s)| sig_ok(k, s, &id))).unwrap_or(true);
-    let covered = |k: i64| wits.as_ref().map(|l| l.iter().any(|w| w.key as i64 == k && w.valid)).unwrap_or(false);
+    let covered = |k: i64| model_w.as_ref().map(|l| l.iter().any(|w| w.0 == k && w.1)).unwrap_or(false);
     if c0 == 0 {
         if !all_valid {
             emit_oracle_fail(&format!("rule:{}:input-wits-ok-with-invalid-witness", era_name(era)),
@@ -160,6 +195,7 @@ fn run_rule(cx: &mut Ctx, era: EraK, base_body: &RawMap, ins: &[i64], cols: &[i6
             }
         }
     }
+    wl
 }
 
 /// payment key hash of a Shelley address with a key payment part
@@ -167,7 +203,12 @@ fn payment_key(addr: &[u8]) -> Option<Vec<u8>> {
     if addr.len() >= 29 && matches!(addr[0] >> 4, 0 | 2 | 4 | 6) { Some(addr[1..29].to_vec()) } else { None }
 }
 
-fn run_e2e(cx: &mut Ctx, f: &Fixture, tx: &[u8], rekeyed: bool, tag: &str, what: &str) {
+fn run_e2e(cx: &mut Ctx, f: &Fixture, tx: &[u8], rekeyed: bool, tag: &str, what: &str) { run_e2e_x(cx, f, tx, rekeyed, None, false, tag, what) }
+
+/// `bump`: the UTxO entry of that input holds one lovelace more (so that a body with fee + 1 still balances);
+/// `via_txs`: through validate_txs instead of validate_tx
+#[allow(clippy::too_many_arguments)]
+fn run_e2e_x(cx: &mut Ctx, f: &Fixture, tx: &[u8], rekeyed: bool, bump: Option<usize>, via_txs: bool, tag: &str, what: &str) {
     let p = split(tx);
     let body = RawMap::parse(&p.body);
     let wm = RawMap::parse(&p.wits);
@@ -178,8 +219,20 @@ fn run_e2e(cx: &mut Ctx, f: &Fixture, tx: &[u8], rekeyed: bool, tag: &str, what:
     let mut needed: Vec<Vec<u8>> = vec![];
     let mut unresolved = false;
     (f.run)(tx, &mut |metx, utxos, env, cs| {
-        let u2;
-        let u: &UTxOs = if rekeyed { u2 = rekey_utxos(utxos).expect("rekey"); &u2 } else { utxos };
+        let mut u2: UTxOs = if rekeyed { rekey_utxos(utxos).expect("rekey") } else { utxos.clone() };
+        if let Some(k) = bump {
+            let it = parse_array(body.get(0).unwrap()).1[k].clone();
+            let mut d = Decoder::new(&it); d.array().unwrap();
+            let h = d.bytes().unwrap().to_vec(); let ix = d.u64().unwrap();
+            let key = utxo_input(&h, ix);
+            let old = u2.get(&key).expect("input in utxo");
+            let ob = old.encode();
+            let v = output_value(&ob);
+            let nb: &'static [u8] = Box::leak(output_with_value(&ob, &value_with_coin(&v, value_coin(&v) + 1)).into_boxed_slice());
+            let no = MultiEraOutput::decode(old.era(), nb).expect("bumped utxo entry");
+            u2.insert(key, no);
+        }
+        let u: &UTxOs = &u2;
         // needed keys: inputs (0) and collateral (13), from the UTxO addresses
         for key in [0u64, 13] {
             if f.era == EraK::ShelleyMA && key == 13 { continue; }
@@ -198,7 +251,7 @@ fn run_e2e(cx: &mut Ctx, f: &Fixture, tx: &[u8], rekeyed: bool, tag: &str, what:
         }
         // fee and size rules out of play: the mutations change the size of the transaction
         let env2 = env_with(env, with_fee_size_params(env.prot_params(), 0, 0, 1 << 30));
-        res = Some(guard(|| e(validate_tx(metx, 0, &env2, u, cs))));
+        res = Some(if via_txs { guard(|| e(pallas_validate::phase1::validate_txs(std::slice::from_ref(metx), &env2, u, cs))) } else { guard(|| e(validate_tx(metx, 0, &env2, u, cs))) });
     });
     let r = res.expect("ran");
     let accepted = matches!(r, Out::Ok(_));
@@ -257,21 +310,54 @@ fn main() {
     }
     // fixed shapes first: the witness orders a first-match / early-return bug needs
     let shapes: Vec<(Vec<i64>, Vec<i64>, Option<Vec<i64>>, Option<Vec<Wit>>)> = vec![
-        (vec![-1], vec![], None, Some(vec![Wit { key: 7, valid: true }, Wit { key: 8, valid: false }])),   // [good uncovered; bad uncovered]
-        (vec![-1], vec![], None, Some(vec![Wit { key: 8, valid: false }, Wit { key: 7, valid: true }])),
-        (vec![1], vec![], None, Some(vec![Wit { key: 1, valid: true }, Wit { key: 7, valid: true }, Wit { key: 8, valid: false }])),
-        (vec![1], vec![], None, Some(vec![Wit { key: 7, valid: true }, Wit { key: 1, valid: true }, Wit { key: 8, valid: true }, Wit { key: 9, valid: false }])),
-        (vec![1, 1], vec![2], None, Some(vec![Wit { key: 1, valid: true }, Wit { key: 2, valid: true }, Wit { key: 1, valid: false }])), // bad duplicate after a good one
-        (vec![1], vec![], None, Some(vec![Wit { key: 1, valid: false }, Wit { key: 1, valid: true }])),
-        (vec![1], vec![2], None, Some(vec![Wit { key: 1, valid: true }])),                                   // collateral uncovered
-        (vec![1], vec![], Some(vec![3]), Some(vec![Wit { key: 1, valid: true }, Wit { key: 3, valid: false }])),
-        (vec![1], vec![], Some(vec![3]), Some(vec![Wit { key: 1, valid: true }])),
+        (vec![-1], vec![], None, Some(vec![wit(7, true), wit(8, false)])),   // [good uncovered; bad uncovered]
+        (vec![-1], vec![], None, Some(vec![wit(8, false), wit(7, true)])),
+        (vec![1], vec![], None, Some(vec![wit(1, true), wit(7, true), wit(8, false)])),
+        (vec![1], vec![], None, Some(vec![wit(7, true), wit(1, true), wit(8, true), wit(9, false)])),
+        (vec![1, 1], vec![2], None, Some(vec![wit(1, true), wit(2, true), wit(1, false)])), // bad duplicate after a good one
+        (vec![1], vec![], None, Some(vec![wit(1, false), wit(1, true)])),
+        (vec![1], vec![2], None, Some(vec![wit(1, true)])),                                   // collateral uncovered
+        (vec![1], vec![], Some(vec![3]), Some(vec![wit(1, true), wit(3, false)])),
+        (vec![1], vec![], Some(vec![3]), Some(vec![wit(1, true)])),
         (vec![1], vec![], Some(vec![3]), None),
         (vec![-1], vec![], None, None),
         (vec![1], vec![], None, Some(vec![])),
     ];
     for (i, (ins, cols, req, wits)) in shapes.iter().enumerate() {
-        for (era, body) in &bases { run_rule(&mut cx, *era, body, ins, cols, req, wits, "shape", i as u64); }
+        for (era, body) in &bases { run_rule(&mut cx, *era, body, ins, cols, req, wits, "shape", i as u64, None); }
+    }
+    // every length mutation: on the payment-key witness, on a spare witness, on a required signer's witness
+    for sh in 1..N_SHAPES {
+        for (era, body) in &bases {
+            run_rule(&mut cx, *era, body, &[1], &[], &None, &Some(vec![Wit { key: 1, valid: true, shape: sh }]), "length-payment-key", 60 + sh as u64, None);
+            run_rule(&mut cx, *era, body, &[1], &[], &None, &Some(vec![wit(1, true), Wit { key: 7, valid: true, shape: sh }]), "length-spare", 80 + sh as u64, None);
+            run_rule(&mut cx, *era, body, &[1], &[2], &Some(vec![3]), &Some(vec![wit(1, true), wit(2, true), Wit { key: 3, valid: true, shape: sh }]), "length-required-signer", 100 + sh as u64, None);
+            run_rule(&mut cx, *era, body, &[1], &[], &Some(vec![3]), &Some(vec![wit(1, true), Wit { key: 3, valid: true, shape: sh }, wit(3, true)]), "length-required-signer", 120 + sh as u64, None);
+        }
+    }
+    // history (all calls of this process run on the main thread, in this fixed order): a transaction
+    // whose witnesses verify, then OTHER transactions (other inputs => other id) carrying the very same
+    // witness bytes, and once more the first one; a validator must not remember verdicts across calls
+    for (era, body) in &bases {
+        let w = Some(vec![wit(1, true), wit(7, true), wit(3, true)]);
+        let first = run_rule(&mut cx, *era, body, &[1], &[1], &Some(vec![3]), &w, "history-first", 200, None);
+        run_rule(&mut cx, *era, body, &[1], &[1], &Some(vec![3]), &w, "history-witnesses-of-earlier-tx", 201, first.as_ref());
+        run_rule(&mut cx, *era, body, &[-1], &[], &None, &w, "history-witnesses-of-earlier-tx", 202, first.as_ref());
+        run_rule(&mut cx, *era, body, &[1], &[1], &Some(vec![3]), &w, "history-first-again", 200, first.as_ref());
+        // the other way round: the stale witnesses first (rejected), then the transaction they belong to
+        let w2 = Some(vec![wit(2, true), wit(8, true)]);
+        let mut own: Option<Vec<(Vec<u8>, Vec<u8>)>> = None;
+        { // signatures for salt 210, obtained without calling the validator: sign here
+            let pool = |j: usize| -> Vec<u8> { vec![b'k', j as u8] };
+            let mut b2 = body.clone();
+            let mut h = vec![0u8; 32]; h[0] = 1; h[1] = 0; h[2] = 210;
+            b2.set(0, encode_array(false, &[enc_input(&h, 0)])); b2.remove(13); b2.remove(14);
+            let id = tx_id(&b2.encode());
+            own = Some(vec![(my_pub(&pool(2)), sign_with(&pool(2), &id)), (my_pub(&pool(8)), sign_with(&pool(8), &id))]);
+        }
+        run_rule(&mut cx, *era, body, &[2], &[], &None, &w2, "history-witnesses-of-later-tx", 211, own.as_ref());
+        run_rule(&mut cx, *era, body, &[2], &[], &None, &w2, "history-later-tx", 210, own.as_ref());
+        run_rule(&mut cx, *era, body, &[2], &[], &None, &w2, "history-witnesses-of-earlier-tx", 211, own.as_ref());
     }
     for i in 0..args.n {
         let (era, body) = &bases[rng.below(4) as usize];
@@ -285,21 +371,22 @@ fn main() {
             let mut l: Vec<Wit> = vec![];
             let mut needed: Vec<i64> = ins.iter().chain(cols.iter()).chain(req.iter().flatten()).cloned().filter(|k| *k >= 0).collect();
             needed.sort(); needed.dedup();
-            for k in &needed { if !rng.chance(1, 10) { l.push(Wit { key: *k as usize, valid: !rng.chance(1, 12) }); } }
+            for k in &needed { if !rng.chance(1, 10) { l.push(wit(*k as usize, !rng.chance(1, 12))); } }
             for _ in 0..rng.below(4) {
                 match rng.below(4) {
-                    0 => l.push(Wit { key: 10 + rng.below(3) as usize, valid: true }),          // valid extra
-                    1 => l.push(Wit { key: 10 + rng.below(3) as usize, valid: false }),         // invalid extra
-                    2 => if !l.is_empty() { let w = rng.pick(&l).clone(); l.push(Wit { key: w.key, valid: rng.bool() }); }, // duplicate key
-                    _ => l.push(Wit { key: rng.below(nk as u64 + 3) as usize, valid: rng.bool() }),
+                    0 => l.push(wit(10 + rng.below(3) as usize, true)),          // valid extra
+                    1 => l.push(wit(10 + rng.below(3) as usize, false)),         // invalid extra
+                    2 => if !l.is_empty() { let w = rng.pick(&l).clone(); l.push(wit(w.key, rng.bool())); }, // duplicate key
+                    _ => l.push(wit(rng.below(nk as u64 + 3) as usize, rng.bool())),
                 }
             }
+            if rng.chance(1, 5) && !l.is_empty() { let j = rng.below(l.len() as u64) as usize; l[j].shape = rng.range(1, N_SHAPES as u64 - 1) as u8; }
             // order
             match rng.below(3) { 0 => l.reverse(), 1 => { for j in (1..l.len()).rev() { let k = rng.below(j as u64 + 1) as usize; l.swap(j, k); } } _ => {} }
             Some(l)
         };
         if i < 3 { emit_sample(&format!("rule era={} inputs={:?} collateral={:?} required={:?} witnesses={:?}", era_name(*era), ins, cols, req, wits)); }
-        run_rule(&mut cx, *era, body, &ins, &cols, &req, &wits, era_name(*era), (i % 251) as u64);
+        run_rule(&mut cx, *era, body, &ins, &cols, &req, &wits, era_name(*era), (i % 199) as u64, None);
     }
 
     // ---- end to end
@@ -329,6 +416,11 @@ fn main() {
             let mut g = w0.clone(); g[i].0[rng.below(32) as usize] ^= 1 << rng.below(8); muts.push((format!("key of witness {i} corrupted"), g));
             let mut h = w0.clone(); h[i] = (good(1).0, w0[i].1.clone()); muts.push((format!("key of witness {i} replaced"), h));
         }
+        for sh in 1..N_SHAPES {
+            for i in 0..w0.len() { if !thorough && i > 0 && !matches!(sh, 1 | 2 | 7) { continue; } let mut a = w0.clone(); a[i] = reshape(&w0[i], sh); muts.push((format!("length of witness {i}: {}", shape_name(sh)), a)); }
+            { let mut a = w0.clone(); a.push(reshape(&good(1), sh)); muts.push((format!("length of a spare (otherwise valid) extra witness: {}", shape_name(sh)), a)); }
+            { let mut a = w0.clone(); a.insert(0, good(3)); a.push(reshape(&good(1), sh)); muts.push((format!("length of a spare extra witness after a valid extra one: {}", shape_name(sh)), a)); }
+        }
         { let mut a = w0.clone(); a.reverse(); muts.push(("witnesses reversed".into(), a)); }
         { let mut a = w0.clone(); a.reverse(); a.push(good(1)); a.push(bad(2)); muts.push(("witnesses reversed, valid and invalid extras appended".into(), a)); }
         if w0.len() > 1 { let mut a = w0.clone(); a.rotate_left(1); muts.push(("witnesses rotated".into(), a)); }
@@ -350,8 +442,20 @@ fn main() {
             muts.push(("random witness edits".into(), a));
         }
         for (what, ws) in &muts {
-            let tagm = if what.contains("extra") { "extra" } else if what.contains("dupl") { "duplicate" } else if what.contains("dropped") || what.contains("removed") { "drop" } else if what.contains("corrupt") || what.contains("replaced") { "corrupt" } else if what.contains("random") { "random" } else { "reorder" };
+            let tagm = if what.contains("length") { "length" } else if what.contains("extra") { "extra" } else if what.contains("dupl") { "duplicate" } else if what.contains("dropped") || what.contains("removed") { "drop" } else if what.contains("corrupt") || what.contains("replaced") { "corrupt" } else if what.contains("random") { "random" } else { "reorder" };
             run_e2e(&mut cx, f, &with_wits(&p, &wm, tagged, ws), false, &format!("{t}-{tagm}"), what);
+        }
+        // history: the fixture was accepted above on this thread; now the SAME witness bytes on a transaction
+        // with another id (fee + 1, the first input's UTxO entry one lovelace larger, so every other rule
+        // still holds) — through validate_tx and validate_txs — and then the fixture again
+        {
+            let mut b2 = RawMap::parse(&p.body);
+            b2.set(2, enc_u64(body_fee(&b2) + 1));
+            let stale = join(&Parts { head: p.head.clone(), body: b2.encode(), wits: p.wits.clone(), tail: p.tail.clone() });
+            run_e2e_x(&mut cx, f, &tx, false, None, true, &format!("{t}-history-valid-first"), "unchanged, through validate_txs (fills any cross-call state)");
+            run_e2e_x(&mut cx, f, &stale, false, Some(0), false, &format!("{t}-history-stale-witnesses"), "HISTORY (main thread, after the unchanged fixture was validated): fee + 1 and input 0's UTxO + 1 lovelace, witnesses copied unchanged from the fixture");
+            run_e2e_x(&mut cx, f, &stale, false, Some(0), true, &format!("{t}-history-stale-witnesses"), "HISTORY (main thread, after the unchanged fixture was validated): fee + 1 and input 0's UTxO + 1 lovelace, witnesses copied unchanged from the fixture, through validate_txs");
+            run_e2e(&mut cx, f, &tx, false, &format!("{t}-history-valid-again"), "unchanged, after the stale-witness transactions");
         }
         // required signers (Alonzo+), on the re-keyed + re-signed transaction
         if f.era != EraK::ShelleyMA {
@@ -385,6 +489,24 @@ fn main() {
                         txm = join(&Parts { head: pm.head.clone(), body: pm.body.clone(), wits: w2.encode(), tail: pm.tail.clone() });
                     }
                     run_e2e(&mut cx, f, &txm, true, &format!("{t}-reqsigner"), what);
+                    if variant == 0 {
+                        // the required signer's (valid) witness with every length mutation
+                        for sh in 1..N_SHAPES {
+                            let pm = split(&txm);
+                            let mut w2 = RawMap::parse(&pm.wits);
+                            let (tg2, mut l2) = vkey_wits(&w2);
+                            let last = l2.len() - 1; l2[last] = reshape(&l2[last], sh);
+                            set_vkey_wits(&mut w2, tg2, &l2);
+                            let t2 = join(&Parts { head: pm.head.clone(), body: pm.body.clone(), wits: w2.encode(), tail: pm.tail.clone() });
+                            run_e2e(&mut cx, f, &t2, true, &format!("{t}-reqsigner-length"), &format!("required signer added, length of its witness: {}", shape_name(sh)));
+                        }
+                        // history on the re-signed transaction: its witnesses on a body with fee + 1
+                        let pm = split(&txm);
+                        let mut b2 = RawMap::parse(&pm.body);
+                        b2.set(2, enc_u64(body_fee(&b2) + 1));
+                        let stale = join(&Parts { head: pm.head.clone(), body: b2.encode(), wits: pm.wits.clone(), tail: pm.tail.clone() });
+                        run_e2e_x(&mut cx, f, &stale, true, Some(0), false, &format!("{t}-history-stale-witnesses"), "HISTORY (main thread, after the re-signed transaction with a required signer was validated): fee + 1 and input 0's UTxO + 1 lovelace, witnesses copied unchanged");
+                    }
                 }
             }
         }
